@@ -1,4 +1,4 @@
-chk("C19", "exploration", "property-based testing (Hypothesis): round-trip oracle + metamorphic chunking relation",
+chk("C19", "exploration", "property-based testing (Hypothesis): round-trip oracle + metamorphic chunking relation; plus coverage-guided fuzzing (atheris/libFuzzer driving the same generators and oracles)",
     "Generated (command, kwargs) over the supported value types must decode(encode(x)) == x with equal types and "
     "encode to one line; generated streams of 1-8 messages with binary payloads must be reassembled identically "
     "for whole, generated-split and single-byte delivery and equal the per-message decoding. Search, not proof.",
@@ -56,7 +56,7 @@ chk("C03", "exploration", "property-based testing (Hypothesis): generated switch
     "never after removal) and checks states and is_active/is_inactive answers. Search, not proof.",
     "ignore_window_ms = 0, no muting; an operation exactly at a deadline may land on either side.",
     "DESIGN.md §4 C03")
-chk("C16", "exploration", "property-based testing (Hypothesis): differential evaluation against CPython's operators + subscription histories",
+chk("C16", "exploration", "property-based testing (Hypothesis): differential evaluation against CPython's operators + subscription histories; plus coverage-guided fuzzing (atheris/libFuzzer driving the same generators and oracles)",
     "Generated expression trees over the supported grammar are rendered and evaluated by Raw/Int/Float/Bool/String "
     "templates and by a strict reference evaluator whose leaf operations are executed by CPython (value / default / "
     "unspecified outcomes); generated histories of machine-variable, setting, player-variable and device-attribute "
@@ -81,7 +81,7 @@ chk("C20", "exploration", "property-based testing (Hypothesis): generated pricin
     "equal the coins accepted. Search, not proof.",
     "Configs representable in whole credit units only; expiry instants never coincide with operations; presses >= 100 ms apart.",
     "DESIGN.md §4 C20, appendix A.4")
-chk("C12", "exploration", "property-based testing (Hypothesis): generated section sources over the enumerated config_spec vs. a validity predicate per validator kind",
+chk("C12", "exploration", "property-based testing (Hypothesis): generated section sources over the enumerated config_spec vs. a validity predicate per validator kind; plus coverage-guided fuzzing (atheris/libFuzzer driving the same generators and oracles)",
     "For every section and sub-section of the loaded config_spec (enumerated; ~1 690 typed keys, coverage of (section, key) "
     "pairs is counted) generated sources mixing valid-looking, boundary, wrong-typed, nested, None/empty, token and "
     "template values - optionally with unknown keys at top level or inside sub-configs - are validated; the call must "
@@ -170,7 +170,7 @@ chk("C17", "exploration", "property-based testing (Hypothesis): generated shows 
     "entry, coil or running instance of the show remains. Search, not proof.",
     "Lateness <= 4 ms; requests closer than 2J to a step instant are skipped; one live instance per show so markers can be attributed.",
     "DESIGN.md §4 C17")
-chk("C14", "fault_enumeration", "property-based testing (Hypothesis): generated frame/noise/corruption streams with a metamorphic chunking relation and an independent CRC; scripted-board schedules for flow control",
+chk("C14", "fault_enumeration", "property-based testing (Hypothesis): generated frame/noise/corruption streams with a metamorphic chunking relation and an independent CRC; scripted-board schedules for flow control; plus coverage-guided fuzzing (atheris/libFuzzer driving the same generators and oracles)",
     "OPP (firmware-2 mock rig) and FAST Neuron (mock rig) decoders are fed generated streams of valid switch reports, "
     "full-state reports, ignored messages, line noise and (OPP) frames with corrupted payload/CRC bytes, whole and split "
     "at generated points down to single bytes: decoded messages and final switch states must not depend on the "
